@@ -512,6 +512,18 @@ def main(argv: List[str]) -> int:
     nm, okm = merge_obligations(run)
     n_tab += nm
     d_tab += okm
+    # merging is a function of the documents: the same parsed documents merged twice give equal models and are not mutated
+    try:
+        parts = [part(doc, 0, 0.5), part(doc, 0.5, 1)]
+        before = copy.deepcopy(parts)
+        m1 = model.create_lsp_model(parts)
+        m2 = model.create_lsp_model(parts)
+        tab(parts == before, "merge:history:documents-mutated", "create_lsp_model mutates the documents it is given (a second load of the same parsed documents sees different input)")
+        tab(drop_empty_defaults(read_back(m1)) == drop_empty_defaults(read_back(m2)), "merge:history:repeat", "merging the same parsed documents twice gives different models")
+        single = model.create_lsp_model([parts[0]])
+        tab(drop_empty_defaults(read_back(single)) == drop_empty_defaults(before[0]), "merge:history:single-after-merge", "loading the first document alone after a merge does not give that document")
+    except Exception as e:  # noqa
+        tab(False, "merge:history:raises", f"repeated merge raises {type(e).__name__}: {e}")
     # ---- 5. gate
     ng, okg, ginfo = gate_obligations(run)
     import jsonschema
